@@ -74,7 +74,7 @@ Proof. exact delete_protected_bound. Qed.
 Print Assumptions delete_protected_mixed.
 
 (* 6. sheet.namespaces = the mapping of the @namespace rules.
-      Full statement (REFUTED on the current tree, open finding C15-redeclare-prefix-by-rule-object):
+      Full statement (NOT proved; its former counter-example is closed, see 6b; no counter-example in the exploration):
         forall stmts ops, let sh := run ops (fst (parse stmts)) in view sh = rev (ns_pairs sh)
       Proved part: it holds for every clean sheet (distinct prefixes, distinct URIs), where moreover
       _cleanNamespaces removes nothing (every rule is effective). *)
@@ -86,21 +86,41 @@ Theorem view_matches_rules_partial : forall sh,
 Proof. exact view_matches_clean. Qed.
 Print Assumptions view_matches_rules_partial.
 
+(* 6b. Since "fix: insertRule restores the rule list when _cleanNamespaces refuses" every REJECTED operation
+       (namespace or selector side, whatever the exception) leaves the sheet exactly as it was; the former
+       counter-example to view_matches_rules on reachable sheets (re-declaring a bound prefix by a rule object:
+       NoModificationAllowedErr half-way, rule left inserted) is gone with it. *)
+Theorem rejected_operation_unchanged : forall o sh e, snd (mstep o sh) = Raise e -> fst (mstep o sh) = sh.
+Proof. exact mstep_rejected. Qed.
+Print Assumptions rejected_operation_unchanged.
+
 Definition wA : list stmt :=
   [SNs (s "p") (s "u1"); SNs (s "q") (s "u2"); SStyle [PSel KType (FPfx (s "q")) (s "a")]].
-Theorem view_matches_rules_refuted : exists stmts ops,
-  let sh := run ops (fst (parse stmts)) in
-  view sh <> rev (ns_pairs sh) /\ view sh = [(s "p", s "u1")] /\ ns_pairs sh = [(s "p", s "u1"); (s "p", s "u2")].
-Proof. exists wA, [OAddObj (s "p") (s "u2")]. vm_compute. repeat split; congruence. Qed.
-Print Assumptions view_matches_rules_refuted.
+Example redeclare_is_rolled_back :
+  step (OAddObj (s "p") (s "u2")) (fst (parse wA)) = (fst (parse wA), Raise ENoMod)
+  /\ view (fst (parse wA)) = [(s "q", s "u2"); (s "p", s "u1")] /\ Clean (fst (parse wA)).
+Proof. vm_compute. repeat split; repeat (apply NoDup_cons; [simpl; intuition congruence|]); apply NoDup_nil. Qed.
 
 (* 7. The serialised sheet re-parses to the same pairs.
-      Full statement (REFUTED, three open findings):
-        forall stmts ops, let sh := run ops (fst (parse stmts)) in pairs (reparse sh) = pairs sh *)
-Theorem reparse_same_pairs_refuted_redeclare : exists stmts ops,
-  let sh := run ops (fst (parse stmts)) in pairs (reparse sh) <> pairs sh.
-Proof. exists wA, [OAddObj (s "p") (s "u2")]. vm_compute. congruence. Qed.
-Print Assumptions reparse_same_pairs_refuted_redeclare.
+      Full statement (REFUTED, two open findings):
+        forall stmts ops, let sh := run ops (fst (parse stmts)) in pairs (reparse sh) = pairs sh
+      Proved part: it holds for every clean sheet (distinct prefixes, distinct non-empty URIs, @namespace rules in
+      front, every rule printing its own prefix and URI) whose items are all SPELLABLE under the view
+      (spellable_b: `*|x` always; `|x` for non-attributes; an unbound item only without a default namespace; a URI
+      through the default namespace or any prefix; an attribute only through a NON-default prefix): the URI -> prefix
+      choice of do_css_Selector and the parse-time prefix -> URI resolution are inverse there. *)
+Theorem reparse_same_pairs_partial : forall sh,
+  Clean sh -> AllGood sh -> ordered sh = true -> UrisNonEmpty sh -> Spellable sh ->
+  items_of (reparse sh) = items_of sh /\ pairs (reparse sh) = pairs sh.
+Proof. exact reparse_items. Qed.
+Print Assumptions reparse_same_pairs_partial.
+(* for sheets reached from a parse by namespace operations the two structural hypotheses are theorems *)
+Theorem reparse_same_pairs_reachable_partial : forall stmts ops,
+  let sh := run ops (fst (parse stmts)) in
+  Clean sh -> UrisNonEmpty sh -> Spellable sh ->
+  items_of (reparse sh) = items_of sh /\ pairs (reparse sh) = pairs sh.
+Proof. exact reparse_items_reachable. Qed.
+Print Assumptions reparse_same_pairs_reachable_partial.
 Theorem reparse_same_pairs_refuted_unbound : exists stmts ops,
   let sh := run ops (fst (parse stmts)) in pairs (reparse sh) <> pairs sh.
 Proof. exists [SStyle [PSel KType FNone (s "e")]], [OSet [] (s "d")]. vm_compute. congruence. Qed.
@@ -160,3 +180,16 @@ Example mixed_history :
        IPair KType (UStr []) (s "b")]
   /\ pairs (reparse (mrun ops sh0)) = pairs (mrun ops sh0).
 Proof. vm_compute. repeat split. Qed.
+
+(* non-vacuity of reparse_same_pairs_partial: the sheet wB (every prefix form, an attribute with a prefixed URI, a
+   default namespace) and the sheet after a renaming history satisfy all its hypotheses *)
+Example reparse_partial_nonvacuous :
+  let sh := fst (parse wB) in
+  let sh2 := run [OSet (s "q") (s "u1"); OAddText (s "r") (s "u3")] sh in
+  (Clean sh /\ AllGood sh /\ ordered sh = true /\ UrisNonEmpty sh /\ Spellable sh) /\
+  (Clean sh2 /\ UrisNonEmpty sh2 /\ Spellable sh2) /\ length (pairs sh2) = 5.
+Proof.
+  assert (G : AllGood (fst (parse wB))) by apply parse_allgood.
+  vm_compute. repeat split; try exact G;
+    repeat (apply NoDup_cons; [simpl; intuition congruence|]); apply NoDup_nil.
+Qed.
